@@ -132,6 +132,7 @@ def exc_msg(exc: BaseException) -> str:
 
 _UUID = re.compile(r"[0-9a-f]{8}-[0-9a-f]{4}-[0-9a-f]{4}-[0-9a-f]{4}-[0-9a-f]{12}")
 _MAC = re.compile(r"^(?:[0-9a-f]{2}:){5}[0-9a-f]{2}$")
+_MAC_IN = re.compile(r"\b(?:[0-9a-f]{2}:){5}[0-9a-f]{2}\b")
 
 
 def norm_state(state: Any, drop_keys=()) -> Any:
@@ -147,6 +148,7 @@ def norm_state(state: Any, drop_keys=()) -> Any:
     def subst(s: str) -> str:
         if _MAC.match(s):
             return lab("mac", s)
+        s = _MAC_IN.sub(lambda m: lab("mac", m.group(0)), s)
         return _UUID.sub(lambda m: lab("id", m.group(0)), s)
 
     def go(x):
